@@ -2,6 +2,7 @@ package sym
 
 import (
 	"fmt"
+	"os"
 	"go/types"
 
 	"golang.org/x/tools/go/ssa"
@@ -180,6 +181,9 @@ func (e *Exec) schedPoint(what string) {
 	}
 	k := e.Choose(len(cands) + 1)
 	e.ND = append(e.ND, NDEntry{Kind: "sched", Dec: k})
+	if os.Getenv("SYMGO_SCHED_DEBUG") != "" {
+		fmt.Fprintf(os.Stderr, "SCHEDPOINT t%d k=%d %s %s\n", e.cur.ParSlot-1, k, what, e.where())
+	}
 	if k == 0 {
 		return
 	}
@@ -323,7 +327,6 @@ func (e *Exec) chanSend(ch *ChanV, v Value) bool {
 		e.cur.Wait = "send on nil channel"
 		return true
 	}
-	e.schedPoint("send")
 	c := ch.C
 	if c.Closed {
 		e.fail("send-closed-chan", "send on closed channel")
@@ -345,7 +348,6 @@ func (e *Exec) chanRecv(ch *ChanV) (Value, bool, bool) {
 		e.cur.Wait = "receive on nil channel"
 		return nil, false, true
 	}
-	e.schedPoint("recv")
 	c := ch.C
 	if e.probing && (len(c.Buf) > 0 || c.Closed) {
 		panic(probeOK{})
@@ -364,7 +366,6 @@ func (e *Exec) chanRecv(ch *ChanV) (Value, bool, bool) {
 }
 
 func (e *Exec) selectOp(f *Frame, x *ssa.Select) bool {
-	e.schedPoint("select")
 	var ready []int
 	for i, st := range x.States {
 		ch := e.get(f, st.Chan).(*ChanV)
